@@ -209,8 +209,8 @@ EstBody(c, p, dir, stim) ==
             /\ tx' = IF r.cancel # None THEN [tx EXCEPT ![c] = "accepting", ![r.cancel] = "cancelled"]
                                         ELSE [tx EXCEPT ![c] = "accepting"]
             /\ UNCHANGED <<cpeer, cdir, caddrs, next, known, kf>>
-            /\ Handle(stim, IF r.cancel # None THEN <<[c |-> "cancel", cid |-> r.cancel], [c |-> "accept", cid |-> c]>>
-                                               ELSE <<[c |-> "accept", cid |-> c]>>, <<>>, "none")
+            /\ Handle(stim, IF r.cancel # None THEN <<[c |-> "cancel", cid |-> r.cancel], [c |-> "accept", cid |-> c, ok |-> TRUE]>>
+                                               ELSE <<[c |-> "accept", cid |-> c, ok |-> TRUE]>>, <<>>, "none")
        ELSE /\ pend' = pend1
             /\ tx' = [tx EXCEPT ![c] = "rejected"]
             /\ UNCHANGED <<ps, cpeer, cdir, caddrs, limIn, limOut, next, known, kf>>
@@ -237,11 +237,32 @@ TInEst(c, p) ==
                /\ tx' = IF r.cancel # None THEN [tx EXCEPT ![c] = "accepting", ![r.cancel] = "cancelled"]
                                            ELSE [tx EXCEPT ![c] = "accepting"]
                /\ UNCHANGED <<cdir, caddrs, limOut, next, known, kf>>
-               /\ Handle(stim, IF r.cancel # None THEN <<[c |-> "cancel", cid |-> r.cancel], [c |-> "accept", cid |-> c]>>
-                                                  ELSE <<[c |-> "accept", cid |-> c]>>, <<>>, "none")
+               /\ Handle(stim, IF r.cancel # None THEN <<[c |-> "cancel", cid |-> r.cancel], [c |-> "accept", cid |-> c, ok |-> TRUE]>>
+                                                  ELSE <<[c |-> "accept", cid |-> c, ok |-> TRUE]>>, <<>>, "none")
           ELSE /\ pend' = pend1 /\ tx' = [tx EXCEPT ![c] = "rejected"]
                /\ UNCHANGED <<ps, cdir, caddrs, limIn, limOut, next, known, kf>>
                /\ Handle(stim, <<[c |-> "reject", cid |-> c]>>, <<>>, "none")
+
+\* ConnectionEstablished whose accept() call fails synchronously (the transport lost the connection
+\* before the manager decided): the manager rolls back with on_connection_closed, nothing is reported
+EstLostBody(c, p, dir, stim) ==
+  LET pend1 == pend \ {c} IN
+  IF (dir = "in" /\ Full(limIn, MaxIn)) \/ (dir = "out" /\ Full(limOut, MaxOut)) THEN EstBody(c, p, dir, stim)  \* rejected before accept() is called
+  ELSE LET r == OnEst(ps[p], c) IN
+       IF ~r.acc THEN EstBody(c, p, dir, stim) ELSE
+       /\ ps' = [ps EXCEPT ![p] = OnClosed(r.st, c).st]
+       /\ pend' = IF r.cancel # None THEN pend1 \ {r.cancel} ELSE pend1
+       /\ tx' = IF r.cancel # None THEN [tx EXCEPT ![c] = "closed", ![r.cancel] = "cancelled"]
+                                   ELSE [tx EXCEPT ![c] = "closed"]
+       /\ kf' = IF (c \in DOMAIN mon.att /\ mon.att[c].st = "open") \/ r.cancel # None
+                  THEN kf \cup {"accept-rolled-back-silently"} ELSE kf
+       /\ UNCHANGED <<cpeer, cdir, caddrs, limIn, limOut, next, known>>
+       /\ Handle(stim, IF r.cancel # None THEN <<[c |-> "cancel", cid |-> r.cancel], [c |-> "accept", cid |-> c, ok |-> FALSE]>>
+                                          ELSE <<[c |-> "accept", cid |-> c, ok |-> FALSE]>>, <<>>, "none")
+
+TEstablishedLost(c) ==
+  /\ c \in DOMAIN tx /\ tx[c] \in {"dialing", "negotiating"}
+  /\ EstLostBody(c, cpeer[c], "out", [a |-> "established", c |-> c, p |-> cpeer[c], dir |-> "out", mismatch |-> FALSE, lost |-> TRUE])
 
 TAcceptOk(c) ==
   /\ c \in DOMAIN tx /\ tx[c] = "accepting"
@@ -317,7 +338,7 @@ ConnClosed(c) ==
 Next ==
   \/ \E p \in Peers : UDial(p) \/ HDial(p)
   \/ \E p \in Peers : \E a \in AddrsOf[p] : UDialAddr(p, a) \/ (a \notin known[p] /\ AddKnown(p, a))
-  \/ \E c \in DOMAIN tx : TDialFail(c) \/ TEstablished(c) \/ TAcceptOk(c) \/ TAcceptErr(c)
+  \/ \E c \in DOMAIN tx : TDialFail(c) \/ TEstablished(c) \/ TEstablishedLost(c) \/ TAcceptOk(c) \/ TAcceptErr(c)
                           \/ TOpenFail(c) \/ ConnClosed(c) \/ TInDrop(c)
                           \/ (\E p \in Peers : TInEst(c, p))
                           \/ (\E a \in ToSet(caddrs[c]) : TOpened(c, a))
